@@ -826,6 +826,14 @@ def csv_to_merchants_content(csv_rules: List[Tuple]) -> str:
             pattern, merchant, category, subcategory = rule
             parsed = None
 
+        # A CSV row without category and tags never affected classification, and a
+        # rule without them is rejected by the .rules loader (which would make the
+        # whole migrated file unloadable): keep it as a comment only.
+        if not category and not tags:
+            lines.append(f"# Skipped (no category or tags): {pattern} -> {merchant}")
+            lines.append("")
+            continue
+
         # Build match expression
         parts = []
         if pattern:
